@@ -201,6 +201,7 @@ def run(repo='/repo', tier='quick'):
                   'the yield-at-end flag is set outside the refused-CONNECT arm', x['loc'])
     c16g(db, res)
     c16h(db, res)
+    c16i(db, res)
     res.assumptions.append('"no request byte skipped or parsed twice" is decided only as: the suspension/probe paths do not move the cursor; values are not tracked')
     if tier == 'thorough':
         from .. import typestate
@@ -283,3 +284,93 @@ def c16h(db, res):
     if not bad:
         res.holds('C16.h', 'method-table:reachable', 'all %d method names are reachable under the guards in front of their comparison' % n, f.loc)
     res.floor('C16.h', 'method names compared', n, 20)
+
+
+# every access of a request-side function to response-side state (and vice versa) on the pinned tree, with why it is there
+CROSS = {
+    ('htp_connp_REQ_CONNECT_PROBE_DATA', 'out_status', 'W'): 'tunnel mode is entered for both directions together (C16.b)',
+    ('htp_connp_REQ_CONNECT_WAIT_RESPONSE', 'response_status_number', 'R'): 'the answer to the CONNECT decides tunnel vs HTTP',
+    ('htp_connp_REQ_CONNECT_WAIT_RESPONSE', 'response_progress', 'R'): 'the CONNECT wait gate (C16.c / C16.g)',
+    ('htp_connp_RES_BODY_DETERMINE', 'request_method_number', 'R'): 'CONNECT / HEAD decide how the response is framed',
+    ('htp_connp_RES_BODY_DETERMINE', 'request_headers', 'R'): 'Expect: 100-continue of the request',
+    ('htp_connp_RES_BODY_DETERMINE', 'in_body_data_left', 'R'): 'has the request body been started (C06.e)',
+    ('htp_connp_RES_BODY_DETERMINE', 'in_content_length', 'R'): 'has the request body been started (C06.e)',
+    ('htp_connp_RES_BODY_DETERMINE', 'in_state', 'W'): 'a 4xx answer to Expect: 100-continue abandons the unsent request body (C06.e)',
+    ('htp_connp_RES_BODY_DETERMINE', 'in_status', 'W'): 'releases or tunnels the suspended request side after the answer to CONNECT / 101 (C16.e, C09.f)',
+    ('htp_connp_RES_BODY_DETERMINE', 'in_status', 'R'): 'guard of that release',
+    ('htp_connp_RES_IDLE', 'in_state', 'W'): 'response without a request: the request side is put into finalisation',
+    ('htp_connp_RES_IDLE', 'in_state', 'R'): 'same arm',
+    ('htp_connp_RES_IDLE', 'in_tx', 'R'): 'same arm',
+    ('htp_connp_RES_IDLE', 'request_uri', 'W'): 'placeholder URI of the transaction created for a response without a request (C02.a)',
+    ('htp_connp_RES_IDLE', 'request_uri', 'R'): 'same arm',
+    ('htp_connp_req_data', 'out_status', 'W'): 'a request chunk re-opens a response side that waits in DATA_OTHER for it',
+    ('htp_connp_req_data', 'out_status', 'R'): 'guard of that store',
+    ('htp_parse_request_line_generic_ex', 'response_status_expected_number', 'W'): 'the status a compliant server would answer with (an indicator computed from the request)',
+    ('htp_tx_state_response_complete_ex', 'in_tx', 'R'): 'yield to a request side that waits on this transaction (C16.d)',
+    ('htp_tx_state_response_complete_ex', 'in_status', 'R'): 'yield to a request side that waits on this transaction (C16.d)',
+    ('htp_tx_state_response_start', 'in_state', 'R'): 'response to a request that is still being read',
+    ('htp_tx_state_response_start', 'request_uri', 'R'): 'response without a usable request line',
+    ('htp_tx_state_response_start', 'request_method', 'R'): 'response without a usable request line',
+}
+
+
+def c16i(db, res):
+    """The two directions are separate state machines that meet at a handful of documented hand-over points (CONNECT, upgrade,
+    Expect, a response without a request).  Every other access of a request-side function to response-side state - or the
+    reverse - is a slip between twin fields (in_/out_, request_/response_): the other direction's value is read or, worse,
+    written."""
+    import re
+    res.rule('C16.i', 'direction isolation: a function of one direction (by its name: _REQ_/_req_/request vs _RES_/_res_/response) stores to state of the other direction (in_*/request_* vs out_*/response_*) only at the tabled hand-over points, and does not read the other direction\'s twin of a field it has itself (tabled reads excepted)')
+
+    def direction(n):
+        a, b_ = re.search(r'(_REQ_|_req_|request)', n), re.search(r'(_RES_|_res_|response)', n)
+        return 'in' if a and not b_ else 'out' if b_ and not a else None
+
+    def fdir(fld):
+        if fld.startswith(('in_', 'request_', 'hook_request')):
+            return 'in'
+        if fld.startswith(('out_', 'response_', 'hook_response')):
+            return 'out'
+        return None
+
+    def twin(fld):
+        for a, b_ in (('in_', 'out_'), ('request_', 'response_'), ('hook_request', 'hook_response')):
+            if fld.startswith(a):
+                return b_ + fld[len(a):]
+            if fld.startswith(b_):
+                return a + fld[len(b_):]
+        return None
+    allfields = {fl['name'] for u in db.units.values() for r in u['records'] if r['name'] in ('htp_connp_t', 'htp_tx_t', 'htp_cfg_t') for fl in r['fields']}
+    nfn, seen = 0, set()
+    for n, f in sorted(db.fn.items()):
+        d = direction(n)
+        if not d or not f.blocks:
+            continue
+        nfn += 1
+        written = set()
+        for b, i, st in f.stmts():
+            for x in nodes(st, lambda y: y.get('k') == 'assign' or (y.get('k') == 'un' and y['op'] in ('++', '--', '++post', '--post'))):
+                l = strip(x.get('l') if x['k'] == 'assign' else x['e'])
+                if l is not None and l.get('k') == 'member':
+                    written.add(id(l))
+        for b, i, st in f.stmts():
+            for m in nodes(st, lambda y: y.get('k') == 'member' and y.get('rec') in ('htp_connp_t', 'htp_tx_t', 'htp_cfg_t')):
+                fd = fdir(m['field'])
+                if not fd or fd == d:
+                    continue
+                mode = 'W' if id(m) in written else 'R'
+                k = (n, m['field'], mode)
+                if k in seen:
+                    continue
+                seen.add(k)
+                key = '%s:%s:%s' % (n, m['field'], 'store' if mode == 'W' else 'read')
+                if k in CROSS:
+                    res.holds('C16.i', key, 'reviewed hand-over point: ' + CROSS[k], m['loc'])
+                elif mode == 'W':
+                    res.violated('C16.i', key, '%s is a %s-side function and stores to %s, state of the other direction, outside the reviewed hand-over points' % (n, 'request' if d == 'in' else 'response', m['field']), m['loc'])
+                elif twin(m['field']) in allfields:
+                    res.violated('C16.i', key, '%s is a %s-side function and reads %s although its own direction has %s: the value of the other direction is used (a slip between twin fields)' % (n, 'request' if d == 'in' else 'response', m['field'], twin(m['field'])), m['loc'])
+                else:
+                    res.unknown('C16.i', key, 'reads state of the other direction that has no twin on this side; not reviewed', m['loc'])
+    res.floor('C16.i', 'functions with a direction', nfn, 60)
+    res.analysed['C16.i reviewed cross-direction accesses still present'] = len([k for k in CROSS if k in seen])
